@@ -29,6 +29,11 @@ def main():
         print("INCONCLUSIVE %s: harness error %r" % (a.pid, e))
         rc = 2
     sys.stdout.flush()
+    try:
+        from symx import smt
+        smt.shutdown()
+    except Exception:
+        pass
     os._exit(rc)
 
 
